@@ -293,6 +293,12 @@ impl Prop for PWalk {
         let use_files0 = self.flavour == "C18" && rng.chance(1, 2);
         let mut roots = vec![];
         for _ in 0..nroots {
+            if use_files0 && rng.chance(1, 12) {
+                // a name that is not valid UTF-8: find cannot take it, as an operand or from the list - it says so and
+                // gives up (nothing is walked), it does not leave the starting point out silently
+                roots.push(json!({"spell": [255, 120], "node": 0, "bad": true}));
+                continue;
+            }
             if use_files0 && rng.chance(1, 5) {
                 // an empty name in the -files0-from list: diagnosed and skipped
                 roots.push(json!({"spell": [], "node": 0}));
